@@ -214,7 +214,7 @@ def run_case(case, only_c21=False):
                 kinds.append("U")
                 returned_in_row = 0
             elif rule == "foreign":
-                kind = FOREIGN[k % len(FOREIGN)]
+                kind = FOREIGN[(k + 6 * len(extra) + sum(extra)) % len(FOREIGN)]
                 fr = world.fresh_frame()
                 judged_identical = True
                 if kind == "ip":
